@@ -171,15 +171,17 @@ def pool():
     return _POOL
 
 
-def pipe_writer(w, chunks, pace, ending_reset=None):
+def pipe_writer(w, chunks, pace, real_gap=0.0):
     try:
-        for c in chunks:
+        for i, c in enumerate(chunks):
             if c:
                 mv = memoryview(c)
                 while mv:
                     n = os.write(w, mv)
                     mv = mv[n:]
-            if pace:
+            if real_gap and i + 1 < len(chunks):
+                time.sleep(real_gap)            # a real quiet period between two chunks
+            elif pace:
                 time.sleep(0.0004)
     except OSError:
         pass
@@ -190,12 +192,138 @@ def pipe_writer(w, chunks, pace, ending_reset=None):
             pass
 
 
-def drive(io_, kind, lim, chunks, ending="eof", pace=0, rd="pipe"):
+GAP = 3600.0        # virtual seconds of silence between two chunks
+
+
+class VClock:
+    """Virtual time for a private event loop: loop.time() = real monotonic time + offset.  Advancing
+    the offset makes every timer scheduled within that span due at the loop's next iteration, so any
+    timeout-based polling in the code under test fires during a gap, whatever its constant."""
+    def __init__(self, loop):
+        self.real, self.off = loop.time, 0.0
+        loop.time = self.time
+
+    def time(self):
+        return self.real() + self.off
+
+    def advance(self, seconds):
+        self.off += seconds
+
+
+class TracingReader:
+    """The blocking stream handed to StdinAsyncReader, with a count of calls in flight (a pool
+    thread blocked in readline/read) so that the harness can tell when the loop waits for input."""
+    def __init__(self, f):
+        self.f, self.inflight, self.lock = f, 0, threading.Lock()
+
+    def _call(self, fn, *a):
+        with self.lock:
+            self.inflight += 1
+        try:
+            return fn(*a)
+        finally:
+            with self.lock:
+                self.inflight -= 1
+
+    def readline(self):
+        return self._call(self.f.readline)
+
+    def read(self, n):
+        return self._call(self.f.read, n)
+
+    def close(self):
+        self.f.close()
+
+
+def pipe_unread(fd):
+    import array, fcntl, termios
+    buf = array.array("i", [0])
+    fcntl.ioctl(fd, termios.FIONREAD, buf)
+    return buf[0]
+
+
+def settle(loop, task, tr, rfd, limit=10.0):
+    """Run the loop (real time) until the read loop is done or waits for input: a pool thread is
+    blocked in a read, nothing is unread in the pipe, nothing is ready in the loop - three times in a row."""
+    end, stable = time.monotonic() + limit, 0
+    while time.monotonic() < end:
+        spin(loop)
+        if task.done():
+            return True
+        ready = getattr(loop, "_ready", ())
+        if tr.inflight > 0 and pipe_unread(rfd) == 0 and len(ready) == 0:
+            stable += 1
+            if stable >= 3:
+                return True
+        else:
+            stable = 0
+        time.sleep(0.0003)
+    return False
+
+
+def drive_pool_gaps(io_, ob, stop, chunks):
+    """run_async + StdinAsyncReader over a real pipe, the harness writing the chunks itself; after
+    each chunk the loop runs until it waits for input again, then an hour of virtual time passes."""
+    r, w = os.pipe()
+    os.set_blocking(w, False)
+    tr = TracingReader(os.fdopen(r, "rb"))
+    ex = ThreadPoolExecutor(max_workers=8, thread_name_prefix="c02-gap")
+    loop = asyncio.new_event_loop()
+    clock = VClock(loop)
+    wopen = True
+    try:
+        reader = io_.StdinAsyncReader(tr, ex)
+        task = loop.create_task(io_.run_async(stop, reader, ob.proto, error_handler=ob.error_handler))
+        settle(loop, task, tr, r)
+        for c in chunks:
+            mv = memoryview(c)
+            while mv and not task.done():
+                try:
+                    n = os.write(w, mv)
+                except BlockingIOError:
+                    n = 0
+                mv = mv[n:]
+                if mv:
+                    spin(loop)
+                    time.sleep(0.0003)
+            settle(loop, task, tr, r)
+            clock.advance(GAP)              # the quiet period
+            settle(loop, task, tr, r)
+        os.close(w)
+        wopen = False
+        end = time.monotonic() + 20
+        while not task.done() and time.monotonic() < end:
+            spin(loop)
+            time.sleep(0.0003)
+        if not task.done():
+            task.cancel()
+            term = "hang"
+        else:
+            term = "cancelled" if task.cancelled() else term_of(task.exception())
+    finally:
+        if wopen:
+            os.close(w)
+        for _ in range(200):                 # let orphaned pool threads (if any) see EOF and finish
+            spin(loop)
+            if tr.inflight == 0:
+                break
+            time.sleep(0.001)
+        ex.shutdown(wait=False, cancel_futures=True)
+        spin(loop)
+        loop.close()
+        tr.close()
+    return ob.observation(term)
+
+
+def drive(io_, kind, lim, chunks, ending="eof", pace=0, rd="pipe", gaps=0, real_gap=0.0):
     """Run one real loop over the chunks; returns the canonical observation."""
     stop = threading.Event()
     with Observer() as ob:
+        if kind == "pool" and gaps and ending == "eof":
+            return drive_pool_gaps(io_, ob, stop, chunks)
         if kind == "stream":
             loop = asyncio.new_event_loop()
+            clock = VClock(loop)
             try:
                 reader = asyncio.StreamReader(limit=lim, loop=loop)
                 task = loop.create_task(io_.run_async(stop, reader, ob.proto, error_handler=ob.error_handler))
@@ -203,6 +331,14 @@ def drive(io_, kind, lim, chunks, ending="eof", pace=0, rd="pipe"):
                 for c in chunks:
                     reader.feed_data(c)
                     spin(loop)
+                    if gaps:
+                        clock.advance(GAP)      # an hour of silence: every pending timer fires
+                        spin(loop)
+                    if real_gap:
+                        t_end = time.monotonic() + real_gap
+                        while time.monotonic() < t_end:
+                            spin(loop)
+                            time.sleep(0.05)
                 if ending == "eof":
                     reader.feed_eof()
                 else:
@@ -230,7 +366,7 @@ def drive(io_, kind, lim, chunks, ending="eof", pace=0, rd="pipe"):
         else:
             r, w = os.pipe()
             rdr = os.fdopen(r, "rb")
-            wt = threading.Thread(target=pipe_writer, args=(w, chunks, pace), daemon=True)
+            wt = threading.Thread(target=pipe_writer, args=(w, chunks, pace, real_gap), daemon=True)
             wt.start()
         try:
             if kind == "sync":
@@ -350,7 +486,8 @@ class C02(core.Property):
     id = "C02"
     modules = ["Proofs.FramingProofs", "Proofs.FramingProofsFrames", "Props.C02"]
     obligations = ["split_line_app_some", "split_line_app_none", "step_app", "step_meas", "run_fuel_indep",
-                   "run_total", "run_eof_done", "run_app", "blocked_resume", "chunk_independence", "eof_late",
+                   "run_total", "run_eof_done", "run_app", "blocked_resume", "chunk_independence", "pauses_irrelevant",
+                   "pause_insertion", "eof_late",
                    "loop_consumes_body", "run_frame", "run_frames_ds", "loop_whole_frames",
                    "loop_whole_frames_stream", "loop_whole_frames_stdin", "loop_whole_frames_sync", "open_frames",
                    "dec_value", "dec_spells", "cut_bodies_full",
@@ -360,7 +497,10 @@ class C02(core.Property):
             "header text in a JSON string and raw, leading LF, whitespace-only, binary, invalid UTF-8, NUL, 64 KiB+1 "
             "(thorough: 200 KiB)} x layouts {CL; CL,CT v; CT v,CL} x partitions (every split point and 1-byte chunks "
             "for short streams, random partitions biased to header / CRLFCRLF / multi-byte offsets, empty chunks) x "
-            "3 real loops; raw cases: malformed streams (bad header spellings, Content-Length: 0, missing CR, junk and "
+            "3 real loops, with and without QUIET PERIODS between the chunks (the async loops run on a private event loop whose "
+            "clock is advanced by one hour after a chunk, the loop then runs until it waits for input again: any timeout-based "
+            "polling fires; for StdinAsyncReader the pool thread keeps blocking in the real pipe read meanwhile; thorough: a few "
+            "real 6 s gaps; the synchronous loop has no timers); raw cases: malformed streams (bad header spellings, Content-Length: 0, missing CR, junk and "
             "whitespace lines, duplicate headers, truncation, > 4300 digits, lines over the StreamReader limit) "
             "compared impl = model only; non-trivial = >= 2 frames and >= 1 chunk boundary that is not a frame boundary")
     trusted_base = ["Coq 8.16.1 kernel incl. vm_compute (Examples)",
@@ -413,6 +553,9 @@ class C02(core.Property):
                 step = 1
                 for p in range(0, n + 1, step):
                     out.append(self.mk(kind, msgs, [p, n - p], pace=1 if kind != "stream" else 0))
+                    if kind != "sync":          # the same split with a long quiet period at the split point
+                        c = self.mk(kind, msgs, [p, n - p]); c["gaps"] = 1
+                        out.append(c)
                 out.append(self.mk(kind, msgs, [1] * n))
                 out.append(self.mk(kind, msgs, [1] * n, lim=64))
         return out
@@ -420,7 +563,7 @@ class C02(core.Property):
     def gen_frames(self, chk):
         rng = chk.rng
         out = []
-        nrand = chk.n(900, 15000)
+        nrand = chk.n(700, 15000)
         for i in range(nrand):
             big = (i % 40 == 7)
             cl = body_classes(rng, big)
@@ -456,7 +599,17 @@ class C02(core.Property):
             c = self.mk(kind, msgs, parts, lim=lim, pace=1 if (kind != "stream" and i % 4 == 0) else 0)
             if kind == "sync" and style == 0 and i % 2:
                 c["rd"] = "bytesio"
+            if kind != "sync" and len(parts) <= 12 and i % 2 == 0:
+                c["gaps"] = 1               # quiet periods (virtual clock) between the chunks
+                c["pace"] = 0
             out.append(c)
+        if not chk.quick:
+            # sanity check of the virtual clock: a few REAL idle gaps between frames / inside a header
+            two = [(0, b"", jbody({"id": 1})), (1, b"utf8", jbody({"s": "\u00e9"}))]
+            n0 = len(py_frame(*two[0]))
+            for kind, parts in (("pool", [n0]), ("pool", [n0 + 9]), ("stream", [n0])):
+                c = self.mk(kind, two, parts); c["real_gap"] = 6.0
+                out.append(c)
         return out
 
     BAD_HEADERS = [b"content-length: 3\r\n", b"Content-Length:3\r\n", b"Content-Length:  3\r\n", b"Content-Length: 3 \r\n",
@@ -477,7 +630,7 @@ class C02(core.Property):
     def gen_raw(self, chk):
         rng = chk.rng
         out = []
-        for i in range(chk.n(1200, 20000)):
+        for i in range(chk.n(900, 20000)):
             pieces = []
             for _ in range(rng.randint(1, 5)):
                 r = rng.random()
@@ -512,6 +665,8 @@ class C02(core.Property):
             lim = DEFAULT_LIMIT if (kind != "stream" or rng.random() < 0.6) else rng.choice([1, 2, 17, 18, 19, 30])
             c = {"k": "raw", "kind": kind, "lim": lim, "end": "eof", "chunks": [H(x) for x in chunks],
                  "pace": 1 if (kind != "stream" and i % 5 == 0) else 0}
+            if kind != "sync" and (i // 3) % 3 == 0:
+                c["gaps"] = 1
             if kind == "sync" and ncut == 0:
                 c["rd"] = "bytesio"
             out.append(c)
@@ -532,7 +687,7 @@ class C02(core.Property):
                     signal.setitimer(signal.ITIMER_REAL, 30)
                     _, chunks = case_stream(c)
                     out.append(drive(io_, c["kind"], c.get("lim", DEFAULT_LIMIT), chunks, c.get("end", "eof"),
-                                     c.get("pace", 0), c.get("rd", "pipe")))
+                                     c.get("pace", 0), c.get("rd", "pipe"), c.get("gaps", 0), c.get("real_gap", 0.0)))
                 except HarnessTimeout:
                     out.append({"bodies": [], "term": "hang", "dispatch": "ok", "nhandled": 0})
                 except Exception as ex:
